@@ -183,8 +183,7 @@ def run(chk):
 
     loader.install_shim()
     tof = loader.load('conversion.tof')
-    chk.functions = loader.describe([tof._energy_transfer_t0, tof.energy_transfer_direct_from_tof, tof.energy_transfer_indirect_from_tof,
-                                     tof._energy_constant, tof._common_dtype])
+    chk.functions = loader.describe_exprs(['tof._energy_transfer_t0', 'tof.energy_transfer_direct_from_tof', 'tof.energy_transfer_indirect_from_tof', 'tof._energy_constant', 'tof._common_dtype'], {**globals(), **locals()})
     dt_grid = [('float64',) * 4, ('float32',) * 4, ('float32', 'float64', 'float64', 'float64'), ('float64', 'float64', 'float64', 'float32')]
     if chk.tier == 'thorough':
         dt_grid = list(itertools.product(['float64', 'float32'], repeat=4))
